@@ -55,16 +55,19 @@ def runs_for(tier):
         return [("group_by, partition*", c(["group_by", "partition", "partition_indexed"], 2, 3, LongLen=3)),
                 # timed durations, and durations derived from the group itself (a group expires right after its n-th
                 # element)
-                ("group_by_until", c(["group_by_until"], 2, 3, ElemMode="none", Terms={"C", "U"}, Durs={1}, DCounts={1, 2})),
+                # (durations notify by on_next or complete WITHOUT emitting - both expire the group)
+                ("group_by_until", c(["group_by_until"], 2, 3, ElemMode="none", Terms={"C", "U"}, Durs={1}, DCounts={1, 2},
+                                     DKinds={"N", "C"})),
                 # fault dimension (C09): key / element mapper / predicate raises ...
                 ("faults group_by, partition*", c(["group_by", "partition", "partition_indexed"], 2, 2, LongLen=3, Faults=True,
                                                   Terms={"C", "U"})),
                 # ... duration selector raises at its k-th call, duration observable errors
                 ("faults group_by_until", c(["group_by_until"], 2, 1, H=3, Durs={1}, DKinds={"N", "E"}, ElemMode="none",
                                             Faults=True, Terms={"U"})),
-                # dispose dimension (C03): the subscriber disposes the result and every group subscription at any instant
+                # dispose dimension (C03): the subscriber disposes the result and every group subscription at any instant,
+                # or ONLY the result and keeps its group subscriptions (the source must stay until the last of them ends)
                 ("dispose group_by_until, partition", c(["group_by_until", "partition"], 2, 2, LongLen=2, Durs={1},
-                                                        ElemMode="none", Terms={"U"}, Disposes=True)),
+                                                        ElemMode="none", Terms={"C", "U"}, Disposes=True)),
                 # re-entrant feedback: a subscriber of the 1st / 2nd group pushes one more element into the source from
                 # inside that group's completion (expiry) callback - the key is seen again right after its group expired
                 ("feedback group_by_until", c(["group_by_until"], 2, 2, H=4, Durs={1}, ElemMode="none", Terms={"U"},
